@@ -1190,12 +1190,12 @@ Proof.
 Qed.
 
 Example ex_float_text_roundtrip :
-  let '(_, h) := alloc_float empty_heap 0.1%float in
+  let '(_, h) := alloc_float empty_heap 0x1.999999999999ap-4%float in
   (do r1 <- call_builtin orc1 BString h [VFloat 1%positive];
    let '(v, h1, _) := r1 in
    do r2 <- call_builtin orc1 BFloat h1 [v];
    let '(w, h2, _) := r2 in
-   match w with VFloat l => get_float h2 l | _ => Err ETypeError end) = Ok 0.1%float.
+   match w with VFloat l => get_float h2 l | _ => Err ETypeError end) = Ok 0x1.999999999999ap-4%float.
 Proof. vm_compute. reflexivity. Qed.
 
 Print Assumptions builtins_total.
